@@ -5,8 +5,8 @@ Implementation side (vlib/c18_impl.py): one small real model per method (PIT wit
 Dropout + an excluded Linear, MPS with (2,4,8)-bit weights, SuperNet with 3 branches), full_cost on/off,
 train / eval, softmax / Gumbel sampling.  ALL op sequences up to a depth over the alphabet
 {export, export(add_bn=False), summary, .cost, get_cost('a'), set cost_specification (3 values), forward,
-search step} are enumerated as a tree (every node = one op applied to a deep copy of its parent, RNG state
-included); seeded length-5 histories are additionally run on ONE live object without copies.  After every
+search step} are enumerated; every history is run from scratch on ONE freshly built live object (no copy of the
+model under test), seeded length-5 histories over the full alphabet are added.  After every
 step a fingerprint is taken: parameters / buffers (bitwise), `.training` of every module, sampled
 coefficients, position of torch's global RNG, requires_grad, and — on deep copies, RNG re-seeded — every
 cost value, summary(), structural hash of export(), output on a fixed batch.
@@ -227,8 +227,8 @@ def plan(ctx):
 def run(ctx):
     built = ctx.build()
     tasks = plan(ctx)
-    ctx.rule = ('every op sequence over the alphabet up to the stated depth on each of 20 configurations (method x sampler x full_cost x train/eval), enumerated as a tree '
-                '(one op applied to a deep copy of the parent, RNG included) + seeded length-5 histories on one live object; quick: full alphabet (10 ops) depth 2 on all '
+    ctx.rule = ('every op sequence over the alphabet up to the stated depth on each of 20 configurations (method x sampler x full_cost x train/eval), each run from scratch '
+                'on one freshly built live object + seeded length-5 histories; quick: full alphabet (10 ops) depth 2 on all '
                 'configurations, depth 3 on 3; thorough: full depth 3 on the 10 training configurations (2 on the eval ones), 7-op alphabet depth 4 on 6, 5-op alphabet depth 5 on 3 (PIT, MPS-Gumbel, SuperNet-Gumbel, training, full_cost); '
                 'a case = one history; non-trivial = it contains an observer call; distinct = distinct (configuration, history)')
     tasks.sort(key=lambda t: -(len(ALPH[t[2]]) ** (t[3] - 1) if t[0] == 'dfs' else 1))
@@ -283,7 +283,7 @@ def run(ctx):
             model_ok = False
             ctx.notes.append('model evaluation failed: ' + str(ex)[-800:])
     ctx.extra['model_impl_mismatches'] = len(mism)
-    ctx.assumptions += ['deep copies of the NAS model (tree enumeration and probes) behave like the original: cross-checked by the seeded histories that run on one live object',
+    ctx.assumptions += ['the read-only probes (cost values, summary, export, output) are taken on deep copies of the live object; the histories themselves never run on a copy',
                         'tensors are compared bitwise through sha1 prefixes (48 bit); the RNG position is torch.random.get_rng_state() of the CPU generator']
 
     if not ctx.violations and not ctx.known_printed:
